@@ -235,6 +235,12 @@ def label_arg(t, a, b):
         t = t[1]
     if t[0] == "aggr" and t[1] == "common::Label" and t[2] == "Int":
         return leaf(t[3][0][1], a, b)
+    while t[0] in ("ref", "deref"):
+        t = t[1]
+    if t == ("param", 0):
+        return a            # the function's own operands handed on whole (`self.cmp(other)` as a fast path)
+    if t == ("param", 1):
+        return b
     raise CannotEval("label argument %s" % show(t)[:80])
 
 
@@ -440,7 +446,7 @@ def check(ctx, consistency_only=False):
         htable = decision_table(prog, h)
         for a, b in itertools.product(labels, labels):
             npairs += 1
-            got = table_eval(prog, htable, a, b, variant_of)
+            got = table_eval(prog, htable, a, b, variant_of, label_cmp if table is not None else None)   # (a fast path may delegate to Ord)
             ea, eb = enc(a), enc(b)
             want = ordname(cmp((len(ea), ea), (len(eb), eb)))
             if got != want:
